@@ -7,3 +7,4 @@ open MtailVerif.C05
 #print axioms MtailVerif.VM.run_coherent
 #print axioms MtailVerif.C05.line_skeletons
 #print axioms MtailVerif.C05.exec_skeletons
+#print axioms MtailVerif.C05.f_vm_vm_skeletons
